@@ -10,8 +10,12 @@ LEVEL_NOTE = (
     "only, audited each run; no native_decide/bv_decide/sorry); the "
     "hand-written model is tied to /repo by tables regenerated each run and "
     "by a per-step correspondence check against the package built from the "
-    "working tree; CPython, protobuf, intervaltree, sortedcontainers and "
-    "networkx are modelled as abstract types, not verified.")
+    "working tree; CPython, intervaltree, sortedcontainers and networkx are "
+    "modelled as abstract types, not verified; protobuf's wire format and "
+    "its serializer / parser for the GTIRB schema are a Lean model of their "
+    "own (model W, round trip proved) compared with both protobuf back ends "
+    "on every saved file - its behaviour on corrupted input is not "
+    "modelled.")
 
 # id -> (technique, level text, design_ref)
 CLAIMED = {
